@@ -44,7 +44,7 @@ def write_ucd(rows, d):
     os.makedirs(d, exist_ok=True)
     with open(os.path.join(d, 'UnicodeData.txt'), 'w') as f:
         for lo, hi, gc, ccc, bidi, width, is_range in rows:
-            dec = f'<wide> {width:04X}' if width is not None else ''
+            dec = f'<{"narrow" if lo % 2 else "wide"}> {width:04X}' if width is not None else ('<compat> 0020' if lo % 7 == 3 and not is_range else '')
             if is_range:
                 f.write(f'{lo:04X};<Block, First>;{gc};{ccc};{bidi};{dec};;;;N;;;;;\n')
                 f.write(f'{hi:04X};<Block, Last>;{gc};{ccc};{bidi};{dec};;;;N;;;;;\n')
@@ -255,8 +255,32 @@ def correspondence(ctx):
     all_props = []
     for i in range(len(inputs)):
         all_props.append(hand_props[i] if i < len(hand_props) else gen_props(rng))
+    # ILL-FORMED UnicodeData (outside the property, inside the model): unpaired / reversed First-Last lines must be an error
+    # of the parser in the implementation exactly when `parseUnicodeData` of the model returns none
+    RAW = lambda cp, kind, gc='Lo', bidi='L': (cp, kind, gc, 0, bidi)
+    malformed = [[RAW(0x10, 'f')], [RAW(0x10, 'l')], [RAW(0x10, 'f'), RAW(0x20, 'p')], [RAW(0x10, 'f'), RAW(0x20, 'f'), RAW(0x30, 'l')],
+                 [RAW(0x20, 'f'), RAW(0x10, 'l')], [RAW(0x5, 'p'), RAW(0x10, 'l')], [RAW(0x10, 'f'), RAW(0x20, 'l'), RAW(0x30, 'l')],
+                 [RAW(0x10, 'f'), RAW(0x10, 'l')], [RAW(0x10, 'f'), RAW(0x20, 'l'), RAW(0x30, 'f')]]
     lines = []
     impl_tables = []
+    for i, raw in enumerate(malformed):
+        d = os.path.join(work, f'm{i}')
+        o = os.path.join(d, 'out')
+        os.makedirs(o, exist_ok=True)
+        with open(os.path.join(d, 'UnicodeData.txt'), 'w') as f:
+            for cp, kind, gc, ccc, bidi in raw:
+                nm = {'f': '<Block, First>', 'l': '<Block, Last>', 'p': f'CHARACTER {cp:04X}'}[kind]
+                f.write(f'{cp:04X};{nm};{gc};{ccc};{bidi};;;;;N;;;;;\n')
+        r = subprocess.run([HARNESS, 'ucdgen', d, o], stdout=subprocess.PIPE, text=True, env=ENV)
+        status = r.stdout.strip()
+        corr.evaluations += 1
+        corr.count('malformed_unicodedata:' + ('rejected' if status.startswith('err') else status[:12]))
+        if status == 'PANIC':
+            corr.spec_violations.append((f'ucdgen-malformed|{raw}', status, 'VIOLATED:the parser panics on ill-formed input instead of returning an error'))
+        impl_tables.append(('err' if status.startswith('err') else 'accepted', None, None))
+        lines.append('ucdgen|' + ';'.join(f'{cp:X}:{kind}:{gc}:{ccc}:{bidi}:-' for cp, kind, gc, ccc, bidi in raw))
+        shutil.rmtree(d, ignore_errors=True)
+    nmal = len(malformed)
     for i, rows in enumerate(inputs):
         d = os.path.join(work, f'u{i}')
         o = os.path.join(d, 'out')
@@ -282,7 +306,9 @@ def correspondence(ctx):
     # the model generators on the same rows
     r = subprocess.run([DRIVER], input='\n'.join(lines) + '\n', stdout=subprocess.PIPE, text=True, env=ENV)
     mod = [l.split('\t')[0] for l in r.stdout.split('\n') if l]
-    for line, (txt, g, b), m in zip(lines, impl_tables, mod):
+    for k, (line, (txt, g, b), m) in enumerate(zip(lines, impl_tables, mod)):
+        if k < nmal:
+            m = 'err' if m.startswith('err:parse') else 'accepted'
         if txt != m:
             corr.disagreements.append((line, txt, m))
     # the two pinned data sets: model generators on the parsed rows must reproduce the tables the build emitted
